@@ -31,7 +31,8 @@ BUDGET_S = {"quick": 150, "thorough": 1500}
 CASES_PER_PROCESS = {"quick": 500, "thorough": 1200}
 MIN_EVENTS = {"quick": {"evaluations": 4000, "functions_walked": 5000, "error_paths_provoked": 20000, "identity_checks": 1500, "passthrough_union_cases": 60,
                         "module_name_ok": 100, "nested_specialisations_ok": 60, "foreign_default_ok": 60,
-                        "late_specialisations_ok": 100, "container_subclasses_ok": 100},
+                        "late_specialisations_ok": 100, "container_subclasses_ok": 100,
+                        "cross_module_discriminators_ok": 100},
               "thorough": {"evaluations": 10000, "functions_walked": 15000, "error_paths_provoked": 60000, "identity_checks": 4000}}
 
 
@@ -67,7 +68,9 @@ def run_case(seed, tier, rec, st):
         late_specialisation_case(rng, tier, rec, st)
     elif x < 0.13:
         container_subclass_case(rng, tier, rec, st)
-    elif x < 0.18:
+    elif x < 0.15:
+        cross_module_discriminator_case(rng, tier, rec, st)
+    elif x < 0.20:
         passthrough_union_case(rng, tier, rec, st)
     elif x < 0.58:
         schema_case(rng, tier, rec, st)
@@ -329,6 +332,56 @@ def late_specialisation_case(rng, tier, rec, st):
         walk_new_functions(rec, st, dict(ctx, kind="late-specialisation"))
     finally:
         fam.dispose()
+
+
+def cross_module_discriminator_case(rng, tier, rec, st):
+    """a member with a field-level Discriminator whose variants live in ANOTHER module than the class that declares the
+    member, and no other annotation of that class mentions its own module: the dispatcher keeps its registry on the declaring
+    class and has to be able to name it."""
+    from mashumaro.codecs.basic import BasicDecoder
+    other = Family("c17var")
+    fam = Family("c17", future_annotations=rng.random() < 0.2)
+    try:
+        other.exec_src("@dataclass\nclass Base:\n    x: int = 0\n@dataclass\nclass V1(Base):\n    kind = 'v1'\n@dataclass\nclass V2(Base):\n    kind = 'v2'\n    y: Optional[datetime.date] = None\n")
+        fam.module.other = other.module
+        how = rng.choice(["direct", "list", "optional", "dict"])
+        ann = {"direct": "Annotated[other.Base, DSC]", "list": "List[Annotated[other.Base, DSC]]", "optional": "Optional[Annotated[other.Base, DSC]]",
+               "dict": "Dict[str, Annotated[other.Base, DSC]]"}[how]
+        mixin = rng.random() < 0.7
+        lazy = "    class Config(BaseConfig):\n        lazy_compilation = True\n" if rng.random() < 0.2 else ""
+        fam.exec_src(f"DSC = Discriminator(field='kind', include_{rng.choice(['subtypes', 'subtypes', 'supertypes'])}=True)\n"
+                     f"@dataclass\nclass Holder{'(DataClassDictMixin)' if mixin else ''}:\n    a: {ann}\n    n: int = 0\n" + lazy)
+        m, o = fam.module, other.module
+        supertypes = "include_supertypes" in fam.sources[-1]
+        if supertypes:
+            # only the annotated class itself is a variant: it needs a tag of its own
+            o.Base.kind = "base"
+        tag, cls, extra = rng.choice([("v1", o.V1, {}), ("v2", o.V2, {"y": "2020-01-02"})]) if not supertypes else ("base", o.Base, {})
+        inner = dict({"kind": tag, "x": 3}, **extra)
+        doc = {"a": {"direct": inner, "list": [inner, dict(inner)], "optional": inner, "dict": {"k": inner}}[how]}
+        ctx = {"source": "".join(other.sources[1:]) + "# ---- the holder's module\n" + "".join(fam.sources[1:])}
+        facts = {"scenario": "cross-module-discriminator", "monitor": "cross-module-discriminator", "how": how}
+        routes = [("codec", lambda: BasicDecoder(m.Holder).decode(doc))]
+        if mixin:
+            routes.append(("mixin", lambda: m.Holder.from_dict(doc)))
+        rng.shuffle(routes)
+        for name, fn in routes:
+            rec.evaluation()
+            try:
+                back = fn()
+            except Exception as e:
+                rec.violation(f"cross-module-discriminator:{name}:{type(e).__name__}", dict(ctx, error=f"{type(e).__name__}: {e}"[:300], cause=repr(e.__context__)[:200]), dict(facts, exc=type(e).__name__))
+                continue
+            got = {"direct": [back.a], "list": back.a, "optional": [back.a], "dict": list(back.a.values()) if isinstance(back.a, dict) else [back.a]}[how]
+            if all(type(g) is cls and g.x == 3 for g in got):
+                rec.count("cross_module_discriminators_ok")
+                rec.nontrivial(("cross-module-discriminator", name, how, tag, mixin, bool(lazy)))
+            else:
+                rec.violation(f"cross-module-discriminator:{name}:wrong-class-or-value", dict(ctx, observed=common.short(back, 300)), facts)
+        walk_new_functions(rec, st, dict(ctx, kind="cross-module-discriminator"))
+    finally:
+        fam.dispose()
+        other.dispose()
 
 
 CONTAINER_SUBCLASSES = {
